@@ -1624,10 +1624,97 @@ def src_leverage(repo):
     return f"(mkLV [{'; '.join(cutl)}] {cmp_} {'true' if renorm else 'false'})"
 
 
+def src_cp_permute(repo):
+    fn = _funcs(os.path.join(repo, "tensorly", "cp_tensor.py")).get("cp_permute_factors")
+    if fn is None or len(fn.args.args) != 2:
+        raise Untranslatable("cp_permute_factors(ref, tensors) not found")
+    ref, tp = [a.arg for a in fn.args.args]
+    body = _body(fn)
+    sw = dict(nref=False, nlist=False, fac=False, wts=False)
+    if not body or not isinstance(body[0], ast.If):
+        raise Untranslatable("the list / single-tensor branch is not the first statement")
+    s = body[0]
+    e = m_expr(s.test, "not isinstance(_T, list)")
+    if not (e and _name(e["_T"]) == tp and len(s.body) == 2 and len(s.orelse) == 3):
+        raise Untranslatable("list / single-tensor branch")
+    e1, e2 = m_stmt(s.body[0], "_P = [_T.cp_copy()]"), m_stmt(s.body[1], "_T = [_T]")
+    if not (e1 and e2 and _name(e1["_T"]) == tp and _name(e2["_T"]) == tp):
+        raise Untranslatable("single-tensor branch")
+    P = _name(e1["_P"])
+    e3, e4 = m_stmt(s.orelse[0], "_T = list(_T)"), m_stmt(s.orelse[1], "_P = []")
+    lp = s.orelse[2]
+    if not (e3 and e4 and _name(e3["_T"]) == tp and _name(e4["_P"]) == P and isinstance(lp, ast.For) and not lp.orelse
+            and (lambda e: e and _name(e["_T"]) == tp)(m_expr(lp.iter, "range(len(_T))")) and 1 <= len(lp.body) <= 2):
+        raise Untranslatable("list branch")
+    iv = _name(lp.target)
+    e5 = m_stmt(lp.body[0], "_P.append(_T[_i].cp_copy())")
+    if not (e5 and _name(e5["_P"]) == P and _name(e5["_T"]) == tp and _name(e5["_i"]) == iv):
+        raise Untranslatable("list branch: the permuted tensors must be copies")
+    if len(lp.body) == 2:
+        e6 = m_stmt(lp.body[1], "_T[_i] = cp_normalize(_T[_i])")
+        if not (e6 and _name(e6["_T"]) == tp and _name(e6["_i"]) == iv):
+            raise Untranslatable("list branch: " + ast.unparse(lp.body[1])[:60])
+        sw["nlist"] = True
+    nt = nf = perm = None; stage = 0
+    for s in body[1:]:
+        if stage == 0:
+            e = m_stmt(s, "_R = cp_normalize(_R)")
+            if e and _name(e["_R"]) == ref:
+                sw["nref"] = True; continue
+            e = m_stmt(s, "_n = len(_R.factors)")
+            if e and _name(e["_R"]) == ref:
+                nf = _name(e["_n"]); continue
+            e = m_stmt(s, "_n = len(_T)")
+            if e and isinstance(e["_T"], ast.Name) and e["_T"].id == tp:
+                nt = _name(e["_n"]); continue
+            e = m_stmt(s, "_p = []")
+            if e and perm is None:
+                perm = _name(e["_p"]); continue
+            if isinstance(s, ast.For) and nt and nf and perm and not s.orelse and (lambda e: e and _name(e["_n"]) == nt)(m_expr(s.iter, "range(_n)")):
+                iv = _name(s.target); col = None; appended = False
+                for k, b in enumerate(s.body):
+                    e = m_stmt(b, "_, _c = congruence_coefficient(_R.factors, _T[_i].factors)")
+                    if e and k == 0 and _name(e["_R"]) == ref and _name(e["_T"]) == tp and _name(e["_i"]) == iv:
+                        col = _name(e["_c"]); continue
+                    if col is None:
+                        raise Untranslatable("the loop must start with the congruence of (reference, tensor)")
+                    e = m_stmt(b, "_c = T.tensor(_c, dtype=T.int64)")
+                    if e and _name(e["_c"]) == col:
+                        continue
+                    if isinstance(b, ast.For) and not b.orelse and len(b.body) == 1 and (lambda e: e and _name(e["_n"]) == nf)(m_expr(b.iter, "range(_n)")):
+                        e = m_stmt(b.body[0], "_P[_i].factors[_f] = _P[_i].factors[_f][:, _c]")
+                        if e and _name(e["_P"]) == P and _name(e["_i"]) == iv and _name(e["_f"]) == _name(b.target) and _name(e["_c"]) == col:
+                            sw["fac"] = True; continue
+                    e = m_stmt(b, "_P[_i].weights = _P[_i].weights[_c]")
+                    if e and _name(e["_P"]) == P and _name(e["_i"]) == iv and _name(e["_c"]) == col:
+                        sw["wts"] = True; continue
+                    e = m_stmt(b, "_p.append(_c)")
+                    if e and _name(e["_p"]) == perm and _name(e["_c"]) == col:
+                        appended = True; continue
+                    raise Untranslatable("loop statement: " + ast.unparse(b).split("\n")[0][:70])
+                if not appended:
+                    raise Untranslatable("the permutation is not recorded")
+                stage = 1; continue
+        elif stage == 1:
+            e = m_stmt(s, "if len(_P) == 1:\n    _P = _P[0]")
+            if e and _name(e["_P"]) == P:
+                stage = 2; continue
+        elif stage == 2:
+            e = m_stmt(s, "return _P, _p")
+            if e and _name(e["_P"]) == P and _name(e["_p"]) == perm:
+                stage = 3; continue
+        raise Untranslatable("statement: " + ast.unparse(s).split("\n")[0][:70])
+    if stage != 3:
+        raise Untranslatable("incomplete: main loop / unwrap / return not all found")
+    bl = lambda b: "true" if b else "false"
+    return f"(mkCPP {bl(sw['nref'])} {bl(sw['nlist'])} {bl(sw['fac'])} {bl(sw['wts'])})"
+
+
 SRC_TIES = {          # name -> (extractor, record type, canonical term, streams whose cases carry the sampled comparison)
     "factors.congruence_coefficient": (src_factors, "cong_src", "canonical_cs", ("congruence_coefficient", "congruence_certified", "cp_permute_factors")),
     "similarity.correlation_index": (src_similarity, "ci_src", "canonical_ci", ("correlation_index",)),
     "leverage_scores.leverage_score_dist": (src_leverage, "lev_src", "canonical_lv", ("leverage_score_dist",)),
+    "cp_tensor.cp_permute_factors": (src_cp_permute, "cpp_src", "canonical_pp", ("cp_permute_factors",)),
 }
 
 
@@ -1771,7 +1858,7 @@ def run(chk):
         head, body = lit[1:-1].split(", ", 1)
         opt = lambda n: f"(Some {differs[n]})" if n in differs else "None"
         return (f"({head}, KSrc {opt('factors.congruence_coefficient')} {opt('similarity.correlation_index')} "
-                f"{opt('leverage_scores.leverage_score_dist')} ({body}))")
+                f"{opt('leverage_scores.leverage_score_dist')} {opt('cp_tensor.cp_permute_factors')} ({body}))")
     lap("source_tie")
     todo = load_corpus()
     only = [x for x in os.environ.get("VERIF_C20_ONLY", "").split(",") if x]      # development aid (mutation screening): a subset of streams
